@@ -137,7 +137,7 @@ func runC20(c *core.Ctx) core.Meta {
 						paired = true
 					}
 				}
-				idOK := regexp.MustCompile(`^append\(recv\.` + l.free + `,\[recv\.\w+\[recv\.\w+\.PeekIncoming\(\)\.\w+ID\]\]\)$`).MatchString(pv)
+				idOK := core.ProvMatch(regexp.MustCompile(`^append\(recv\.` + l.free + `,\[recv\.\w+\[recv\.\w+\.PeekIncoming\(\)\.\w+ID\]\]\)$`), pv)
 				st2.Ob(paired && idOK)
 				st2.Sample("%s: %s := %s (paired with %s--: %v)", core.FuncName(fn), l.free, pv, l.unfinished, paired)
 				if !paired {
@@ -162,7 +162,7 @@ func runC20(c *core.Ctx) core.Meta {
 						continue
 					}
 					pv := prov.Of(s.Val)
-					if re.MatchString(pv) { // counter := quantity
+					if core.ProvMatch(re, pv) { // counter := quantity
 						loads = append(loads, n)
 						direct = true
 					} else if pv == "(recv."+l.unfinished+"+1)" {
@@ -180,7 +180,7 @@ func runC20(c *core.Ctx) core.Meta {
 					// the increment must sit in the loop that appends each child to the pending list
 					for _, n := range loads {
 						for _, i2 := range n.Block.Instrs {
-							if s2, ok := storeToField(i2, F(l.pending)); ok && re.MatchString(prov.Of(s2.Val)) {
+							if s2, ok := storeToField(i2, F(l.pending)); ok && core.ProvMatch(re, prov.Of(s2.Val)) {
 								okLoad = true
 							}
 						}
@@ -197,7 +197,7 @@ func runC20(c *core.Ctx) core.Meta {
 					for _, n := range g.Nodes {
 						if s2, ok := storeToField(n.Instr, F(cnt)); ok {
 							pv := prov.Of(s2.Val)
-							if direct && regexp.MustCompile(`^\(recv\.`+cnt+`\+.*`+l.inputQty[:len(l.inputQty)-1]+`\)$`).MatchString(pv) {
+							if direct && core.ProvMatch(regexp.MustCompile(`^\(recv\.`+cnt+`\+.*`+l.inputQty[:len(l.inputQty)-1]+`\)$`), pv) {
 								okC = true
 							}
 							if !direct && pv == "(recv."+cnt+"+1)" && n.Block == loads[0].Block {
